@@ -269,10 +269,80 @@ def rule_cleanup_loop(model):
                                f'{norm(lp.iter)}', 'observation: always '
                                'empty range (missing step -1); not a '
                                'violation of C20 for unchanging trees')
-            if isinstance(lp, ast.For) and isinstance(lp.iter, ast.Call) and \
-                    norm(lp.iter.func) == 'range':
-                n += 0
     r.instance('TreeTag:<module>', 'range() loops scanned')
+    # a LIVE pruning loop (someone repaired the range) may delete only from
+    # the node's own child list: on every path to a `del X[i]` inside a
+    # backwards loop, X was bound to the own sub-state (sub[1]) -- not the
+    # list received as parameter, which is the parent's list when the node
+    # has no children to iterate over
+    wr = model.func('TreeTag', 'tpRenderTABLE')
+    from ..model import ancestors
+
+    def _in_backward_loop(stmt):
+        for a in ancestors(stmt):
+            if isinstance(a, ast.For):
+                it = a.iter
+                if (isinstance(it, ast.Call) and
+                        norm(it.func) == 'reversed') or (
+                        isinstance(it, ast.Call) and
+                        norm(it.func) == 'range' and len(it.args) == 3 and
+                        norm(it.args[2]).startswith('-')):
+                    return any(isinstance(t, ast.Subscript) and
+                               norm(t.slice) == norm(a.target)
+                               for t in stmt.targets)
+        return False
+
+    class _O(BaseState):
+        def __init__(self, env=None):
+            self.env = dict(env or {})
+
+        def key(self):
+            return tuple(sorted(self.env.items()))
+
+        def copy(self):
+            n_ = _O(self.env)
+            n_.trace = self.trace
+            return n_
+
+    class _D(Domain):
+        def __init__(self):
+            self.sites = []
+            self.live = 0
+
+        def raises(self, node, st):
+            return []
+
+        def effects(self, stmt, st):
+            if isinstance(stmt, ast.Assign) and len(stmt.targets) == 1 and \
+                    isinstance(stmt.targets[0], ast.Name):
+                v = norm(stmt.value)
+                st = st.copy()
+                st.env[stmt.targets[0].id] = 'own' if (
+                    v.endswith('[1]') and isinstance(stmt.value,
+                                                     ast.Subscript)) \
+                    else 'other'
+            if isinstance(stmt, ast.Delete) and _in_backward_loop(stmt):
+                for t in stmt.targets:
+                    if isinstance(t, ast.Subscript) and \
+                            isinstance(t.value, ast.Name):
+                        self.sites.append((stmt, t.value.id, st.env.get(
+                            t.value.id, 'param')))
+            return st
+    dom = _D()
+    start = _O({p: 'param' for p in wr.params()})
+    Interp(dom).run(wr.node, start)
+    seen = set()
+    for node, var, origin in dom.sites:
+        if (id(node), origin) in seen:
+            continue
+        seen.add((id(node), origin))
+        r.instance(wr.where, node, f'live pruning of `{var}` ({origin})')
+        if origin == 'param':
+            r.finding(wr.where, node, f'the pruning loop deletes from '
+                      f'`{var}`, which on this path is still the list '
+                      'received from the caller (the node has no children '
+                      'to iterate over): the expansion state of the '
+                      'node\'s SIBLINGS is deleted', node=node, ctx=wr)
     return r
 
 
